@@ -421,6 +421,15 @@ theorem op_run_keeps_window {ρ : Type} (E : Env) (hE : E.lenprefixLeak = false)
     | none => intro hd; obtain ⟨s1, h1, hle⟩ := hd; rw [h1] at h; cases h; exact hle.textEnd
     | some pd => obtain ⟨p', d⟩ := pd; intro hd; simp only at hd; rw [hd] at h; cases h; rfl
 
+/-- ... nor the depth budget (hypothesis `KeepsDepth` of `rule_replace` / `rule_matchtime`, where peg.c reads `s->depth` after
+    the sub-rule returned) -/
+theorem op_run_keeps_depth {ρ : Type} (E : Env) (hE : E.lenprefixLeak = false) (fetch : ρ → Option (Instr ρ)) (fuel : Nat) :
+    Skel.KeepsDepth (Op.run E fetch fuel) := by
+  intro r s p res s' h
+  rcases depth_balanced E hE fetch fuel r s p with ⟨e, he⟩ | ⟨res', s'', h', hd⟩
+  · rw [he] at h; cases h
+  · rw [h'] at h; cases h; exact hd
+
 /-! ### `has_backref` -/
 
 /-- **backref_flag_unobservable.**  peg.c records tagged captures only when the compiled grammar contains a back-reference
